@@ -62,7 +62,16 @@ static void sharing_case(Ctx& c, uint64_t index) {
     }
     model.push_back(MVal::str(s));
   }
-  std::string wit = std::to_string(n) + " values sharing \"" + s1 + "\"" + (as_keys ? " (object members)" : " (array elements)");
+  // half of the time the third replay is filled by a deserializer instead of the API (each has its own string-sharing path)
+  const char* cfill = "API, rotating string kinds";
+  if (r.coin()) {
+    std::string bytes; AJ::DeserializationError e;
+    if (r.coin()) { AJ::serializeMsgPack(B, bytes); e = AJ::deserializeMsgPack(C, bytes.data(), bytes.size()); cfill = "deserializeMsgPack"; }
+    else { AJ::serializeJson(B, bytes); e = AJ::deserializeJson(C, bytes.data(), bytes.size()); cfill = "deserializeJson"; }
+    if (e) { c.violation("sharing-visible", std::string("re-reading the copied replay through ") + cfill + " returned " + err_name(e), std::to_string(n) + " values sharing \"" + s1 + "\""); return; }
+    c.count("replays_filled_by_a_deserializer");
+  }
+  std::string wit = std::to_string(n) + " values sharing \"" + s1 + "\"" + (as_keys ? " (object members)" : " (array elements)") + ", third replay filled through " + cfill;
   if (c.want_sample()) c.sample(wit);
   c.nontrivial(mix3(index, n, fnv1a(s1)));
   auto compare = [&](const char* when) {
